@@ -40,9 +40,16 @@ COVERED BY THEOREMS
      (vacuum), Collins_Stewart, Rosquist_Jantzen, Non_diagonal, Szekeres (derivative property of the jet under the
      hypothesis of T2-zz); Schwarzschild null_ray_exp_out = divergence of the unit normal of the spheres.
 
+  T5 (Props/C17Hyp.lean, part 3) the hypergeometric antiderivative used by Szekeres IS PROVEN (Mathlib's Gauss series on
+     its disc; its Pfaff continuation on the whole negative axis; the two coincide on the disc), hence T2-zz and
+     T4-Szekeres without hypothesis: `K_is_metric_rate_Szekeres`, `einstein_Szekeres`.
+  T6 (Props/C17Pert.lean, part 4) ICPertFLRW at first order (dual numbers): Hamiltonian and momentum constraints up to
+     O(ε²) for every background (EdS, LCDM instantiated); `∂_tγ_ij = −2K_ij + 2[(2+f)/(FH) − d/dt(1/(FH²))]∂_i∂_jRc`.
+
 NOT COVERED BY A THEOREM — numerical sentinel only (tools/props/C17.py)
-  * The hypergeometric antiderivative used by Szekeres (hypothesis of T2-zz and of T4-Szekeres).
-  * ICPertFLRW beyond the above (first-order constraint, LCDM growth index).
+  * That scipy.special.hyp2f1 / sympy.hyper compute the function of T5.
+  * ICPertFLRW on LCDM: `K = −½∂_tγ` needs the growth relation, which `fL = Ω_m^{6/11}` satisfies only approximately
+    (hypothesis of `ICPertFLRW_K_is_metric_rate_of_growth`); second order in ε.
 -/
 import AurelVerif.Lemmas.Solutions
 
